@@ -619,3 +619,22 @@ _TRACE = []
 def trace_events():
     """the records appended by the abstract hooks since the call under contract started"""
     return list(_TRACE)
+
+
+@primitive
+def open_string(t):
+    """a string of a tuning: the Note itself, or the first Note of a course"""
+    return t[0] if isinstance(t, list) else t
+
+
+# ------------------------------------------------------------------ LilyPond note text
+
+def lower_letter(c):
+    """lower-case form of a note letter"""
+    return ("c" if c == "C" else "d" if c == "D" else "e" if c == "E" else "f" if c == "F"
+            else "g" if c == "G" else "a" if c == "A" else "b" if c == "B" else c)
+
+
+def ly_marks(octave, process_octaves):
+    """number of octave marks: one ' per octave above 3, one , per octave below 3"""
+    return (0 if not process_octaves else octave - 3 if octave > 3 else 3 - octave)
